@@ -54,6 +54,7 @@ def scalarEq : Ty → Ty → Bool
   | .tuple as, .tuple bs => scalarEqs as bs
   | .array l a, .array l' b => l == l' && decide (1 ≤ l) && decide (l ≤ 100000000) && scalarEq a b
   | .func as r, .func bs r' => scalarEqs as bs && scalarEq r r'
+  | .vec a, .vec b => scalarEq a b
   | _, _ => false
 def scalarEqs : List Ty → List Ty → Bool
   | [], [] => true
@@ -71,6 +72,7 @@ def flatTy : Ty → Bool
   | .tuple ts => flatTys ts
   | .array len e => decide (1 ≤ len) && decide (len ≤ 100000000) && flatTy e
   | .func ps r => flatTys ps && flatTy r
+  | .vec e => flatTy e
   | t => scalarTy t
 def flatTys : List Ty → Bool
   | [] => true
@@ -87,6 +89,7 @@ def valTyS (S E : List String) : Ty → Bool
   | .tuple ts => valTysS S E ts
   | .array len e => decide (1 ≤ len) && decide (len ≤ 100000000) && valTyS S E e
   | .func ps r => valTysS S E ps && valTyS S E r
+  | .vec e => valTyS S E e
   | t => scalarTy t
 def valTysS (S E : List String) : List Ty → Bool
   | [] => true
@@ -385,6 +388,38 @@ def arrCallOK (env : Env) (file : AFile) (G : List String) (Γ : Ctx) (f : Imm) 
      | _ => false)
   | _ => false
 
+/-- the names of the `Vec` builtins (`vec_new()`, `vec_push(v, x)`, `vec_get(v, i)`, `vec_len(v)`) -/
+def vecNames : List String := ["vec_new", "vec_push", "vec_get", "vec_len"]
+
+/-- a call of a `Vec` builtin at the types of the vector: `vec_new() : Vec[e]` (Go: `nil`), `vec_push(v, x) : Vec[e]`
+    (Go: `append(v, x)`), `vec_get(v, i) : e` with an index of any integer type (Go: `v[i]`), `vec_len(v) : int32`
+    (Go: `int32(len(v))`) -/
+def vecCallOK (env : Env) (file : AFile) (G : List String) (Γ : Ctx) (f : Imm) (args : List Imm) (ty : Ty) : Bool :=
+  match f with
+  | .var name _ =>
+    (lookupTy Γ name).isNone && rn name == name &&
+    (if name == "vec_new" then
+       (match args, ty with
+        | [], .vec e => valTy env (.vec e)
+        | _, _ => false)
+     else if name == "vec_push" then
+       (match ty with
+        | .vec e => argsOK env file G Γ args [.vec e, e] && valTy env (.vec e)
+        | _ => false)
+     else if name == "vec_get" then
+       (match args with
+        | _ :: i :: _ => intTy i.ty && argsOK env file G Γ args [.vec ty, i.ty] && valTy env (.vec ty)
+        | _ => false)
+     else if name == "vec_len" then
+       (match args with
+        | a :: _ =>
+          (match a.ty with
+           | .vec e => argsOK env file G Γ args [.vec e] && scalarEq ty (.int 32 true) && valTy env (.vec e)
+           | _ => false)
+        | [] => false)
+     else false)
+  | _ => false
+
 /-- a call through a variable of function type (a function value held by a local) -/
 def localCallOK (env : Env) (file : AFile) (G : List String) (Γ : Ctx) (f : Imm) (args : List Imm) (ty : Ty) : Bool :=
   match f with
@@ -422,7 +457,7 @@ def fragC (env : Env) (file : AFile) (G : List String) (Γ : Ctx) (K : KCtx) : C
   | .bin op l r ty => immOK env file G Γ l && immOK env file G Γ r && binOK op l.ty r.ty ty
   | .call f args ty =>
     callOK env file G Γ f args ty || refCallOK env file G Γ f args ty || arrCallOK env file G Γ f args ty ||
-      localCallOK env file G Γ f args ty
+      localCallOK env file G Γ f args ty || vecCallOK env file G Γ f args ty
   | .constr (.struct sn) args ty =>
     scalarEq ty (.struct sn) && (goodStructs env).contains sn &&
     (match env.getStruct sn with
@@ -515,6 +550,9 @@ def goCallee (bs : List String) (f : Imm) (args : List Imm) (ty : Ty) : List Str
   match f with
   | .var x _ =>
     if bs.contains x then []
+    else if rn x == "vec_push" then ["append"]
+    else if rn x == "vec_len" then ["int32", "len"]
+    else if rn x == "vec_new" || rn x == "vec_get" then []
     else if rn x == "ref" then [helperFnName "ref" ty]
     else if rn x == "ref_get" || rn x == "ref_set" || rn x == "array_get" || rn x == "array_set" then
       [helperFnName (rn x) ((args.head?.map Imm.ty).getD (.tvar 0))]
@@ -717,13 +755,14 @@ def checkFns (env : Env) (file : AFile) (G : List String) : St → List AFn → 
 
 /-- Go functions the runtime helpers of stage (a) call by name (`Go.Sem`'s builtin table gives them
     their meaning only when the file does not define them) -/
-def reservedGoNames : List String := ["fmt.Sprintf", "fmt.Print", "fmt.Println"]
+def reservedGoNames : List String := ["fmt.Sprintf", "fmt.Print", "fmt.Println", "append", "len", "int32"]
 
 /-- file-level conditions -/
 def fileOK (env : Env) (file : AFile) (n : Nat) : Bool :=
   let F := (goFilePreSt env file n).1
   (F.funcs.map (·.name)).Nodup && (file.map (·.name)).Nodup &&
-  file.all (fun f => !builtinNames.contains f.name && !refNames.contains f.name && !arrNames.contains f.name) &&
+  file.all (fun f => !builtinNames.contains f.name && !refNames.contains f.name && !arrNames.contains f.name &&
+    !vecNames.contains f.name) &&
   reservedGoNames.all (fun r => (F.findFunc r).isNone) &&
   structsClosed env && (goodStructs env).all (structTableOK env F) && (goodEnums env).all (enumTableOK env F) &&
   (collectRuntimeTypes file).refs.all (refTableOK env F) && (collectRuntimeTypes file).tuples.all (tupleTableOK env F)
@@ -778,7 +817,7 @@ def stdC : CExpr → Bool
   | .call f args ty =>
     args.all stdImm && stdTy ty &&
     (match f with
-     | .var name _ => !refNames.contains name && !arrNames.contains name
+     | .var name _ => !refNames.contains name && !arrNames.contains name && !vecNames.contains name
      | _ => false)
   | .ite c t e ty => stdImm c && stdA t && stdA e && stdTy ty
   | .while c b ty => stdA c && stdA b && stdTy ty
@@ -845,7 +884,7 @@ def reasonC (env : Env) (file : AFile) (G : List String) (Γ : Ctx) (K : KCtx) :
       if binOK op l.ty r.ty ty then none else some "operator:binary-type"
   | .call f args ty =>
     if callOK env file G Γ f args ty || refCallOK env file G Γ f args ty || arrCallOK env file G Γ f args ty ||
-        localCallOK env file G Γ f args ty then none
+        localCallOK env file G Γ f args ty || vecCallOK env file G Γ f args ty then none
     else match f with
       | .var name _ =>
         if (lookupTy Γ name).isSome then some "call:through-a-local(closure/function value)"
